@@ -570,6 +570,7 @@ func c04Instances(add func(*Instance), thorough bool) {
 		{P("ak", 2, "akeys", 4, "acow", 0, "ac0", 2, "ac1", 201), 0, 262143},
 		{P("ak", 1, "akeys", 4, "acow", 0, "ac0", 202), 0, 65535},
 		{P("ak", 2, "akeys", 4, "acow", 0, "ac0", 1, "ac1", 100), 65536 + 4150, 15},
+		{P("ak", 2, "akeys", 4, "acow", 0, "ac0", 1, "ac1", 100), 65536 + 120, 15}, // inside the set block of a bitmap chunk, across a word edge
 		{P("ak", 2, "akeys", 4, "acow", 0, "ac0", 107, "ac1", 1), 56, 15},
 		{P("ak", 1, "akeys", 2, "acow", 0, "ac0", 226), 4294967280, 15},
 		{P("ak", 2, "akeys", 3, "acow", 0, "ac0", 220, "ac1", 2), 0, 262143},
